@@ -30,6 +30,7 @@
 #if defined(__SANITIZE_ADDRESS__)
 #include <sanitizer/lsan_interface.h>
 #endif
+#include <locale.h>
 #include "val.h"
 
 /* an entry that delivers more than this is not read further (data_status -77): nested compressed
@@ -161,6 +162,7 @@ static void run_case(val *c)
 	char path[512], parts[8][512];
 	struct mnode mn[8];
 	int nmn = 0;
+	char *read_options = NULL;
 	const char *names[9];
 	unsigned char *buf;
 
@@ -174,12 +176,19 @@ static void run_case(val *c)
 	}
 	archive_read_support_filter_all(a);
 	archive_read_support_format_all(a);
+	read_options = NULL;
+	if (v_len(c) > 8 && v_len(v_at(c, 8)) > 0) {
+		/* 9th case element: options for the reader (e.g. hdrcharset=CP932) */
+		read_options = v_cstr(v_at(c, 8));
+	}
 	if (!v_ll(v_at(c, 7))) {
 		/* the raw "format" accepts any byte string as one entry named "data": checks about
 		 * well-formed archives cut short switch it off (8th case element non-zero) */
 		archive_read_support_format_raw(a);
 		archive_read_support_format_empty(a);
 	}
+	if (read_options != NULL && archive_read_set_options(a, read_options) < ARCHIVE_WARN) flags |= 4;
+	free(read_options);
 	snprintf(path, sizeof(path), "%s/readall-%d.bin", tmpdir(), (int)getpid());
 	switch (kind) {
 	case 0:
@@ -382,5 +391,7 @@ static void run_case(val *c)
 
 int main(int argc, char **argv)
 {
+	const char *loc = getenv("VERIF_LOCALE");
+	if (loc && *loc && setlocale(LC_ALL, loc) == NULL) { fprintf(stderr, "no locale %s\n", loc); return 4; }
 	return v_foreach_line(argc > 1 ? argv[1] : NULL, run_case);
 }
